@@ -1100,6 +1100,113 @@ theorem stepFootprint_clone (j : Nat) (q : Path) : StepFootprint (.clone j q) :=
         obtain ⟨iso2, hslot, hc2⟩ := replaceSlot_footprint inv2 iso1 hjq.1 (fun cc hcc => hfresh cc (hc cc hcc).1) h
         exact ⟨iso2, hslot, fun id hS => by rw [hc2 id hS]; exact hcells id hS⟩
 
+/-- `root j = Var(key, q)` with `q` under another root -/
+theorem stepFootprint_ctorKV (j : Nat) (key : Bytes) (q : Path) : StepFootprint (.ctorKV j key q) := by
+  intro σ k S inv iso hm
+  have hjq : j ≠ k ∧ q.root ≠ k := by simpa [mentions] using hm
+  simp only [applyOp, targetOf, rootOp, opCtorKV]
+  rcases inv.cget q with ⟨e, h1, _⟩ | ⟨src, h1, hsrc⟩
+  · rw [h1]; exact stepFootprint_refused iso
+  · rw [h1]
+    obtain ⟨h', h2, inv2, _⟩ := inv.copyV hsrc
+    simp only [h2, allocB]
+    have hout := cget_outside iso hjq.2 h1
+    obtain ⟨iso1, hcells⟩ := iso_copyV iso hout h2
+    have inv3 := Inv.alloc (σ := { σ with heap := h' }) (T := [])
+      (b := { emptyBlock true with items := [(key, src)] }) (by simpa [bvals] using inv2) rfl
+      (by intro _; simp [SortedItems, AslProofs.Map.Sorted])
+    obtain ⟨iso2, hcells2⟩ := iso_append iso1 [some { emptyBlock true with items := [(key, src)] }] (by
+      intro ob hob w hw c hc
+      simp only [List.mem_singleton] at hob
+      subst hob
+      simp only [ovals, bvals, List.map_cons, List.map_nil, List.mem_singleton] at hw
+      subst hw
+      exact hout c hc)
+    have hnew : ¬ S h'.length := fun hS => Nat.lt_irrefl _ (iso1.2.2.2.2 _ hS)
+    cases h : replaceSlot { σ with heap := h' ++ [some { emptyBlock true with items := [(key, src)] }] } j (.obj h'.length) with
+    | error e => exact stepFootprint_refused iso
+    | ok σ' =>
+      obtain ⟨iso3, hslot, hc3⟩ := replaceSlot_footprint inv3 iso2 hjq.1 (fun c hc => by cases hc; exact hnew) h
+      exact ⟨iso3, hslot, fun id hS => by rw [hc3 id hS]; exact (hcells2 id hS).trans (hcells id hS)⟩
+
+
+theorem mapE_cget_outside {σ : State} {k : Nat} {S : Nat → Prop} (iso : Iso σ k S) : ∀ (qs : List Path) (vals : List V),
+    (∀ q ∈ qs, q.root ≠ k) → mapE qs (cget σ) = .ok vals → ∀ v ∈ vals, ∀ c, handleOf v = some c → ¬ S c
+  | [], vals, _, h => by simp only [mapE, Except.ok.injEq] at h; subst h; intro v hv; cases hv
+  | q :: rest, vals, hq, h => by
+    simp only [mapE] at h
+    cases h1 : cget σ q with
+    | error e => simp [h1] at h
+    | ok w =>
+      simp only [h1] at h
+      cases h2 : mapE rest (cget σ) with
+      | error e => simp [h2] at h
+      | ok ws =>
+        simp only [h2, Except.ok.injEq] at h
+        subst h
+        intro v hv
+        rcases List.mem_cons.mp hv with rfl | hv
+        · exact cget_outside iso (hq q (by simp)) h1
+        · exact mapE_cget_outside iso rest ws (fun q' hq' => hq q' (by simp [hq'])) h2 v hv
+
+theorem iso_copyAll {k : Nat} {S : Nat → Prop} : ∀ (vals : List V) (σ : State) (h' : Heap), Iso σ k S →
+    (∀ v ∈ vals, ∀ c, handleOf v = some c → ¬ S c) → copyAll σ.heap vals = .ok h' →
+    Iso { σ with heap := h' } k S ∧ ∀ id, S id → h'[id]? = σ.heap[id]?
+  | [], σ, h', iso, _, h => by simp only [copyAll, Except.ok.injEq] at h; subst h; exact ⟨iso, fun _ _ => rfl⟩
+  | v :: rest, σ, h', iso, hv, h => by
+    simp only [copyAll] at h
+    cases h1 : copyV σ.heap v with
+    | error e => simp [h1] at h
+    | ok ha =>
+      simp only [h1] at h
+      obtain ⟨iso1, hc1⟩ := iso_copyV iso (hv v (by simp)) h1
+      obtain ⟨iso2, hc2⟩ := iso_copyAll rest { σ with heap := ha } h' iso1 (fun w hw => hv w (by simp [hw])) h
+      exact ⟨iso2, fun id hS => (hc2 id hS).trans (hc1 id hS)⟩
+
+/-- `root j = Var::array({q1, q2, ..})` with every `qi` under another root -/
+theorem stepFootprint_ctorVars (j : Nat) (qs : List Path) : StepFootprint (.ctorVars j qs) := by
+  intro σ k S inv iso hm
+  have hjq : j ≠ k ∧ ∀ q ∈ qs, q.root ≠ k := by simpa [mentions] using hm
+  simp only [applyOp, targetOf, rootOp, opCtorVars]
+  rcases mapE_held inv qs with ⟨e, h1, _⟩ | ⟨vals, h1, hvals⟩
+  · rw [h1]; exact stepFootprint_refused iso
+  · rw [h1]
+    have hout := mapE_cget_outside iso qs vals hjq.2 h1
+    obtain ⟨h', h2, inv2, _⟩ := Inv.copyAll vals σ inv (fun v hv => Held.live inv (hvals v hv))
+    simp only [h2, allocB]
+    obtain ⟨iso1, hcells⟩ := iso_copyAll vals σ h' iso hout h2
+    have hb : bvals { isObj := false, items := vals.map (fun v => (([] : Bytes), v)), cap := max vals.length 3, rc := 1 } = vals := by
+      simp [bvals, List.map_map, Function.comp_def]
+    have inv3 := Inv.alloc (σ := { σ with heap := h' }) (T := [])
+      (b := { isObj := false, items := vals.map (fun v => (([] : Bytes), v)), cap := max vals.length 3, rc := 1 })
+      (by rw [hb]; exact inv2) rfl (by intro h; cases h)
+    obtain ⟨iso2, hcells2⟩ := iso_append iso1 [some { isObj := false, items := vals.map (fun v => (([] : Bytes), v)), cap := max vals.length 3, rc := 1 }] (by
+      intro ob hob w hw c hc
+      simp only [List.mem_singleton] at hob
+      subst hob
+      simp only [ovals, hb] at hw
+      exact hout w hw c hc)
+    have hnew : ¬ S h'.length := fun hS => Nat.lt_irrefl _ (iso1.2.2.2.2 _ hS)
+    cases h : replaceSlot { σ with heap := h' ++ [some { isObj := false, items := vals.map (fun v => (([] : Bytes), v)), cap := max vals.length 3, rc := 1 }] } j (.arr h'.length) with
+    | error e => exact stepFootprint_refused iso
+    | ok σ' =>
+      obtain ⟨iso3, hslot, hc3⟩ := replaceSlot_footprint inv3 iso2 hjq.1 (fun c hc => by cases hc; exact hnew) h
+      exact ⟨iso3, hslot, fun id hS => by rw [hc3 id hS]; exact (hcells2 id hS).trans (hcells id hS)⟩
+
+/-- every statement on a root variable (the 9 kinds that have no target path) has the footprint property -/
+theorem stepFootprint_rootOps (op : Op) (h : targetOf op = none) : StepFootprint op := by
+  cases op with
+  | clone j q => exact stepFootprint_clone j q
+  | copy j q => exact stepFootprint_copy j q
+  | drop j => exact stepFootprint_drop j
+  | ctorLit j l => exact stepFootprint_ctorLit j l
+  | ctorType j ty => exact stepFootprint_ctorType j ty
+  | ctorKV j key q => exact stepFootprint_ctorKV j key q
+  | ctorArr j lits => exact stepFootprint_ctorArr j lits
+  | ctorDic j pairs => exact stepFootprint_ctorDic j pairs
+  | ctorVars j qs => exact stepFootprint_ctorVars j qs
+  | _ => simp [targetOf] at h
+
 /-- **clone_deep over histories** — after an executed `root k = q.clone()` (any history before it), NO history of
 statements that do not mention root `k` and whose one-statement footprint is proved (`StepFootprint`) changes the tree
 root `k` denotes — whatever those statements do to the original and to everything else. -/
